@@ -11,7 +11,9 @@
                      C13_tpool_compress_never_full, C13_waiters_homogeneous   (+ instances at the generated depths)
                      C13_depth1_deadlock                    the lost wake-up at queue depth 1 (witness)
                      C13_no_deadlock (+ instances), C13_stuck_is_complete   deadlock freedom, all N / chunk counts / schedules
-   Not proved:       C13_terminates_full_statement (kept as a Definition at the end). *)
+                     C13_terminates (+ instances)           explicit bound on the length of every schedule (compression)
+                     C13_no_deadlock_dec, C13_stuck_is_final_dec, C13_terminates_dec (+ instances)   the two decoding pipelines
+   No statement of this file is left unproved. *)
 From Coq Require Import ZArith List Lia Bool Permutation.
 From LZ4V Require Import Gen.Consts Gen.TPoolSites Model.WriteReg Model.TPool Model.Pipeline
   Proofs.WriteRegProofs Proofs.TPoolProofs Proofs.DecodeRingProofs Proofs.CompressProofs Proofs.NeverFullProofs Proofs.DeadlockProofs Proofs.C13Inst.
@@ -317,15 +319,110 @@ Example C13_no_deadlock_nonvacuous :
   end.
 Proof. vm_compute. reflexivity. Qed.
 
-(* What is NOT proved (kept visible): termination, i.e. a bound on the length of every schedule.
-   The statement is believed true of the model (every step either consumes work - a main operation, a push, a pop, a
-   job end, a thread exit - or parks an awake thread, and a thread is only woken by a step that consumes work), the
-   measure would be  (N+3) * remaining_work + number_of_awake_threads ; it needs one more pass over pstep on top of
-   cinv + DI (to exclude the error self-loops) that has not been done.  The bounded exhaustive exploration run by the
-   check (extracted model, every interleaving and wake-up choice, N <= 3, <= 4 chunks) always terminates. *)
-Definition C13_terminates_full_statement : Prop :=
+(* ---- termination: every schedule of the compression pipelines is finite, with an explicit bound.
+   bound = the initial value of  Phi = (N+4) * W + A  where W = remaining work (main operations still to execute,
+   cost of the queued jobs, of the running jobs' remaining submissions and ends, 2 per worker still to exit) and
+   A = number of awake threads (<= N+2).  Every pstep either decreases W, or keeps W and parks one awake thread
+   (TerminationProofs.pstep_Phi, on top of cinv + ninv + the deadlock invariant, which exclude the error self-loops). *)
+Theorem C13_terminates :
   forall c : cfg,
     (c_kind c = CompLegacy \/ (c_kind c = CompLZ4F /\ (1 <= c_nfull c)%nat)) ->
     (1 <= c_N c)%nat -> (2 <= c_tdepth c)%nat -> (1 <= c_wdepth c)%nat ->
     exists bound : nat, forall (sched : list pick) (st : state),
       run c (init_state c) sched = Some st -> (length sched <= bound)%nat.
+Proof. exact terminates. Qed.
+Print Assumptions C13_terminates.
+
+Theorem C13_terminates_legacy :
+  forall (N nfull : nat) (last : bool), (1 <= N)%nat ->
+    exists bound : nat, forall (sched : list pick) (st : state),
+      run (cl_cfg N nfull last) (init_state (cl_cfg N nfull last)) sched = Some st -> (length sched <= bound)%nat.
+Proof. exact terminates_legacy. Qed.
+Print Assumptions C13_terminates_legacy.
+
+Theorem C13_terminates_lz4f :
+  forall (N nfull : nat) (last : bool), (1 <= N)%nat -> (1 <= nfull)%nat ->
+    exists bound : nat, forall (sched : list pick) (st : state),
+      run (cf_cfg N nfull last) (init_state (cf_cfg N nfull last)) sched = Some st -> (length sched <= bound)%nat.
+Proof. exact terminates_lz4f. Qed.
+Print Assumptions C13_terminates_lz4f.
+
+(* ---- the two DECODING pipelines (main thread + 1 decoder worker + 1 writer; legacy ring decoder and LZ4F decoder):
+   deadlock freedom and termination under every schedule.  Hypotheses: both TPool queue depths >= 1 (depth 1 is enough
+   here - there is a single submitter per queue, so the lost wake-up of C13_depth1_deadlock cannot happen), and the ring
+   hypotheses of C13_no_reuse_parametric:  NB >= depth(tPool) + 2,  NB >= depth(wPool) + 2 (legacy outBuffs) /
+   PB >= depth(wPool) + 2 (LZ4F BufferPool).  The ring hypotheses are inherited from the decode invariant dinv the
+   proof is built on; the blocking structure itself does not depend on them.
+   New blocking sites with respect to the compression pipelines: the main thread parks inside TPool_submitJob(tPool)
+   when the queue is full, and the decoder worker parks inside TPool_submitJob(wPool). *)
+Theorem C13_no_deadlock_dec :
+  forall c : cfg,
+    (c_kind c = DecLegacy \/ c_kind c = DecLZ4F) -> c_N c = 1%nat ->
+    (1 <= c_tdepth c)%nat -> (1 <= c_wdepth c)%nat -> (c_tdepth c + 2 <= c_NB c)%nat ->
+    (c_kind c = DecLegacy -> (c_wdepth c + 2 <= c_NB c)%nat) -> (c_kind c = DecLZ4F -> (c_wdepth c + 2 <= c_PB c)%nat) ->
+    forall (sched : list pick) (st : state),
+      run c (init_state c) sched = Some st -> final st = false ->
+      exists pk st', pstep c st pk = Some st'.
+Proof. exact no_deadlock_dec. Qed.
+Print Assumptions C13_no_deadlock_dec.
+
+Theorem C13_stuck_is_final_dec :
+  forall c : cfg,
+    (c_kind c = DecLegacy \/ c_kind c = DecLZ4F) -> c_N c = 1%nat ->
+    (1 <= c_tdepth c)%nat -> (1 <= c_wdepth c)%nat -> (c_tdepth c + 2 <= c_NB c)%nat ->
+    (c_kind c = DecLegacy -> (c_wdepth c + 2 <= c_NB c)%nat) -> (c_kind c = DecLZ4F -> (c_wdepth c + 2 <= c_PB c)%nat) ->
+    forall (sched : list pick) (st : state),
+      run c (init_state c) sched = Some st -> (forall pk, pstep c st pk = None) -> final st = true.
+Proof. exact stuck_is_final_dec. Qed.
+Print Assumptions C13_stuck_is_final_dec.
+
+Theorem C13_terminates_dec :
+  forall c : cfg,
+    (c_kind c = DecLegacy \/ c_kind c = DecLZ4F) -> c_N c = 1%nat ->
+    (1 <= c_tdepth c)%nat -> (1 <= c_wdepth c)%nat -> (c_tdepth c + 2 <= c_NB c)%nat ->
+    (c_kind c = DecLegacy -> (c_wdepth c + 2 <= c_NB c)%nat) -> (c_kind c = DecLZ4F -> (c_wdepth c + 2 <= c_PB c)%nat) ->
+    exists bound : nat, forall (sched : list pick) (st : state),
+      run c (init_state c) sched = Some st -> (length sched <= bound)%nat.
+Proof. exact terminates_dec. Qed.
+Print Assumptions C13_terminates_dec.
+
+(* instances at the generated constants (TPool_create depths of the decode call sites, NB_BUFFSETS, PBUFFERS_NB),
+   any number of blocks / any output sizes: the side conditions are discharged by computation in C13Inst.v *)
+Theorem C13_no_deadlock_dec_legacy :
+  forall (nblocks : nat) (sched : list pick) (st : state),
+    run (dl_cfg nblocks) (init_state (dl_cfg nblocks)) sched = Some st -> final st = false ->
+    exists pk st', pstep (dl_cfg nblocks) st pk = Some st'.
+Proof. exact no_deadlock_dec_legacy. Qed.
+Print Assumptions C13_no_deadlock_dec_legacy.
+
+Theorem C13_no_deadlock_dec_lz4f :
+  forall (outs : list nat) (sched : list pick) (st : state),
+    run (df_cfg outs) (init_state (df_cfg outs)) sched = Some st -> final st = false ->
+    exists pk st', pstep (df_cfg outs) st pk = Some st'.
+Proof. exact no_deadlock_dec_lz4f. Qed.
+Print Assumptions C13_no_deadlock_dec_lz4f.
+
+Theorem C13_terminates_dec_legacy :
+  forall nblocks : nat, exists bound : nat, forall (sched : list pick) (st : state),
+    run (dl_cfg nblocks) (init_state (dl_cfg nblocks)) sched = Some st -> (length sched <= bound)%nat.
+Proof. exact terminates_dec_legacy. Qed.
+Print Assumptions C13_terminates_dec_legacy.
+
+Theorem C13_terminates_dec_lz4f :
+  forall outs : list nat, exists bound : nat, forall (sched : list pick) (st : state),
+    run (df_cfg outs) (init_state (df_cfg outs)) sched = Some st -> (length sched <= bound)%nat.
+Proof. exact terminates_dec_lz4f. Qed.
+Print Assumptions C13_terminates_dec_lz4f.
+
+(* hypotheses met in a non-trivial state: legacy decoding of 3 blocks at the generated depths; after two steps of the
+   main thread it is parked inside TPool_submitJob(tPool) (queue full); the state is not final, the main thread has no
+   enabled pick, and the decoder worker's pick (which pops the job and wakes the main thread) is enabled *)
+Example C13_no_deadlock_dec_nonvacuous :
+  let c := dl_cfg 3 in
+  match run c (init_state c) [(0,9);(0,9)]%nat with
+  | Some st => (final st, s_mst st, match pstep c st (0, 0)%nat with Some _ => true | None => false end,
+                match pstep c st (1, 0)%nat with Some _ => true | None => false end)
+               = (false, MWaitPush PT, false, true)
+  | None => False
+  end.
+Proof. vm_compute. reflexivity. Qed.
